@@ -47,6 +47,7 @@ type desc struct {
 	Dly   int64   `json:"dly"`  // retry: fixed delay (units)
 	MaxD  int64   `json:"maxd"` // retry: max duration (units)
 	Wait  int64   `json:"wait"` // bulkhead: max wait time (units)
+	Delays []int64 `json:"delays"` // hedge: delay function = delays[Hedges() % len] (empty: fixed delay)
 }
 
 type outcome struct {
@@ -630,7 +631,14 @@ func buildStack(stack []desc, unit time.Duration, rec *recorder) *builtStack {
 			}
 			p = b.Build()
 		case "hg":
-			b := hedgepolicy.BuilderWithDelay[string](time.Duration(d.Delay) * unit).WithMaxHedges(d.Maxh)
+			b := hedgepolicy.BuilderWithDelay[string](time.Duration(d.Delay) * unit)
+			if len(d.Delays) > 0 {
+				delays := d.Delays
+				b = hedgepolicy.BuilderWithDelayFunc[string](func(exec failsafe.ExecutionAttempt[string]) time.Duration {
+					return time.Duration(delays[exec.Hedges()%len(delays)]) * unit
+				})
+			}
+			b = b.WithMaxHedges(d.Maxh)
 			applyStrConds(d.C, func(e ...error) { b.CancelOnErrors(e...) }, func(r string) { b.CancelOnResult(r) }, func(f func(string, error) bool) { b.CancelIf(f) })
 			if rec.registered("OnHedge") {
 				b.OnHedge(func(e failsafe.ExecutionEvent[string]) { rec.attempt("OnHedge", evLayer, e, nil) })
